@@ -57,7 +57,11 @@ def run(prop, tier="quick", replay=None, root=None, quiet=False):
     seed = int(os.environ.get("VERIF_SEED", "0") or 0)
     meta = load_meta(prop)
     out = sys.stdout
-    ev_path = os.path.join(EVID, "%s.json" % prop)
+    evid = EVID
+    if root is not None and os.path.realpath(root) != os.path.realpath(extract.REPO):
+        # analysis of a scratch copy (selftest): never touch the real evidence
+        evid = os.path.join(extract.CACHE, "scratch-evidence")
+    ev_path = os.path.join(evid, "%s.json" % prop)
 
     def emit(s):
         if not quiet:
@@ -88,8 +92,8 @@ def run(prop, tier="quick", replay=None, root=None, quiet=False):
             canaries = run_canaries(mod, tier)
     except Exception:
         tb = traceback.format_exc()
-        os.makedirs(os.path.join(EVID, "violations"), exist_ok=True)
-        p = os.path.join(EVID, "violations", "%s-internal-error.txt" % prop)
+        os.makedirs(os.path.join(evid, "violations"), exist_ok=True)
+        p = os.path.join(evid, "violations", "%s-internal-error.txt" % prop)
         with open(p, "w") as fh:
             fh.write(tb)
         sys.stderr.write(tb)
@@ -148,14 +152,14 @@ def run(prop, tier="quick", replay=None, root=None, quiet=False):
         emit("KNOWN-FINDING: property=%s %s (%s)" % (prop, known[key].get("what", o.msg), key))
 
     rc = 0
-    os.makedirs(os.path.join(EVID, "violations"), exist_ok=True)
+    os.makedirs(os.path.join(evid, "violations"), exist_ok=True)
     seen_keys = set()
     for key, o, msg, r in violations:
         if key in seen_keys:
             continue
         seen_keys.add(key)
         h = hashlib.sha1(key.encode()).hexdigest()[:10]
-        rp = os.path.join(EVID, "violations", "%s-%s.json" % (prop, h))
+        rp = os.path.join(evid, "violations", "%s-%s.json" % (prop, h))
         write_json(rp, {
             "property": prop, "key": key, "message": msg,
             "rule": None if r is None else {"id": "%s-%s" % (prop, r.rid), "title": r.title},
